@@ -506,13 +506,11 @@ def witness(ctx, zoo, seed, quick):
     ctx.extra['models_answering_a_frame_with_one_training_column'] = answered
     d3 = d3_probe()
     ctx.case(('witness', 'D3'), {'oracle': 'density of a frame lacking training columns must not be answered', 'answered': d3 is not None})
-    if d3 is not None:
-        hits += 1
-        ctx.violation('D3:missing-column-silently-answered',
-                      "probability_density(X[['a']]) on a model fitted on columns a, b, c returns numbers instead of raising: _transform_to_normal "
-                      'silently skips missing training columns (`if column_name in X`) and scipy broadcasts the 1-column score matrix against the 3x3 '
-                      'correlation, i.e. the value is the density at (s_a, s_a, s_a); cumulative_distribution raises on the same input',
-                      {'training_columns': ['a', 'b', 'c'], 'columns_given': ['a'], 'returned': d3, 'repro': D3_REPRO})
+    # QUIRK, not a violation of C13: a frame lacking a training column is not a query point of the property (its quantifier ranges over
+    # containers and column PERMUTATIONS of the training columns).  probability_density answers it anyway (missing columns are skipped by
+    # `if column_name in X`, scipy broadcasts the 1-column score matrix), cumulative_distribution raises.  An earlier version of this check
+    # reported it as finding F27; that demanded more than C13 states and was withdrawn.  The observation is kept in the evidence.
+    ctx.extra['quirk_frame_lacking_training_columns_answered_by_pdf'] = d3 is not None
     ctx.extra['witness_search_hits'] = hits
 
 
